@@ -93,6 +93,14 @@ class StrLang:
                         fs = RL.finite(set(chars))
                         d = d.intersect(fs) if val else d.minus(fs)
         e = self.eq_const(v, st, "")
+        if e is None:
+            # truthiness of a string value: `if s:` / `if not s:` is the test against ""
+            tk = ("truthy", ("unk", v.term)) if isinstance(v, Unk) else ("truthy", vkey(v))
+            tv = st.atoms.get(tk)
+            if tv is True:
+                e = False
+            elif tv is False:
+                e = True
         if e is True:
             d = d.intersect(RL.lit(""))
         elif e is False:
